@@ -250,7 +250,7 @@ def boundary_peers(rng, net):
     return out
 
 
-def gen_lists(rng, malformed_p=0.12):
+def gen_lists(rng, malformed_p=0.06):
     """allow, deny (None | [] | entries as text), the numeric networks used, default"""
     nets = []
 
@@ -441,7 +441,7 @@ class Wiring(_AclFamily):
 
     def toml_text(self, case) -> str:
         tv = self.W.toml_value
-        lines = self.capture.server_section() + ["[rate_limit]"]
+        lines = ["[rate_limit]"]
         lines += ["enabled = true", "capacity = 100000"] if case.get("rate_limit") else ["enabled = false"]
         lines += ["", "[access_control]"]
         if case.get("enabled") is not None:
@@ -508,13 +508,14 @@ class Wiring(_AclFamily):
         return None
 
     def key(self, case, obs):
-        en = case.get("enabled")
-        e = "en=absent" if en is None else f"en={int(en)}"
+        en = "off" if case.get("enabled") is False else "on"
+        al, dn = case["allow"], case["deny"]
+        kind = ("both" if al and dn else "allow-only" if al else "deny-only" if dn else "none-absent" if al is None and dn is None else "none-empty")
         if obs["start"] != "ok":
-            return f"no-start:{e}:A={shape(case['allow'])}:D={shape(case['deny'])}"
+            return f"no-start:{en}:{kind}"
         ds = {r[0] for r in obs["res"]}
         mix = "mixed" if len(ds) == 2 else "all-admit" if ds == {True} else "all-refuse"
-        return f"{e}:comp={int(obs['component'])}:A={shape(case['allow'])}:D={shape(case['deny'])}:dflt={int(case['default'])}{'' if case.get('dflt_written', True) else '(unwritten)'}:{mix}"
+        return f"{en}:component={int(obs['component'])}:{kind}:dflt={int(case['default'])}:{mix}"
 
 
 FAMILIES = [Objects(), Wiring()]
